@@ -90,6 +90,19 @@ theorem ridge_exists_unique (K : Matrix n n ℝ) (hK : K.PosSemidef) (lam : ℝ)
   exact ⟨(K + lam • (1 : Matrix n n ℝ))⁻¹ * Y, Matrix.mul_nonsing_inv_cancel_left _ Y hdet,
     fun B hB => ridge_unique_matrix K hK lam hl B _ Y hB (Matrix.mul_nonsing_inv_cancel_left _ Y hdet)⟩
 
+/-- The ridge matrix `K + λI` is positive **definite** for PSD `K` and `λ > 0` — what `torch.linalg.cholesky` needs
+(so the `cholesky` solver applies to every system the property quantifies over, without its fallback). -/
+theorem ridge_matrix_posDef (K : Matrix n n ℝ) (hK : K.PosSemidef) (lam : ℝ) (hl : 0 < lam) :
+    (K + lam • (1 : Matrix n n ℝ)).PosDef :=
+  Matrix.PosDef.posSemidef_add hK (Matrix.PosDef.smul Matrix.PosDef.one hl)
+
+open Xrfmv.Kernel in
+/-- … in particular for the Gram matrix of any centers under the Lpq Laplace kernel, `0 < q ≤ p ≤ 2`. -/
+theorem ridge_matrix_posDef_lpq {p q L : ℝ} (hq : 0 < q) (hqp : q ≤ p) (hp2 : p ≤ 2) (hL : 0 < L)
+    (T : Transform ℝ) {d k : ℕ} (xs : Fin k → Fin d → ℝ) (lam : ℝ) (hl : 0 < lam) :
+    (gram (.lpq p q L) T xs + lam • (1 : Matrix (Fin k) (Fin k) ℝ)).PosDef :=
+  ridge_matrix_posDef _ (gram_lpq_posSemidef hq hqp hp2 hL T xs) lam hl
+
 open Xrfmv.Kernel in
 /-- **C02(b), closed**: the ridge system of the stored centers under the stored transform and bandwidth
 has exactly one solution for the Lpq Laplace kernel, `0 < q ≤ p ≤ 2`, `L > 0`, `λ > 0` — any centers
